@@ -568,9 +568,19 @@ def run(ctx):
         except Exception as e:  # noqa
             return "err:" + type(e).__name__
 
+    seg_fail = [0]
+
     def rt(bs):
         r = repr(bs)
-        return hxs(r) + " " + real_segment(r[2:-1])
+        got = real_segment(r[2:-1])
+        # direct oracle on the real code (no model): the logged repr of a segment decodes to exactly the bytes that were sent
+        if got != "ok:" + hx(bs):
+            seg_fail[0] += 1
+            if seg_fail[0] <= 3:
+                ctx.violation("segment:" + ("wrong-bytes" if got.startswith("ok:") else got[4:]),
+                              {"kind": "segment", "bytes": bs.hex()}, "the logged STATV record decodes to the bytes sent: " + bs.hex(),
+                              got)
+        return hxs(r) + " " + got
     for a in range(256):
         op("rt " + hx(bytes([a])), rt(bytes([a])), "rt1")
     for a in range(256):
@@ -712,6 +722,18 @@ def replay(inp):
             return True, f"{type(exc).__name__}: {exc} (in {failing_handler(exc)})"
         b = snaps[-1].bytes if snaps else b""
         return b != block, {"len_transferred": len(block), "len_reassembled": len(b), "equal": b == block}
+    if kind == "segment":
+        from geckolib.utils.snapshot import GeckoSnapshot
+        bs = bytes.fromhex(inp["bytes"])
+        s = GeckoSnapshot()
+        try:
+            with warnings.catch_warnings():
+                warnings.simplefilter("ignore")
+                s._re_data_segment(("STATV\\x01\\x01\\xff" + repr(bs)[2:-1],))
+            got = bytes(s._status_block_segments[-1])
+        except Exception as e:  # noqa
+            return True, f"{type(e).__name__}: {e}"
+        return got != bs, {"decoded": got.hex(), "sent": bs.hex()}
     if kind == "shipped":
         f = str(REPO / "tests" / "snapshots" / inp["file"])
         ans, snaps, exc = real_parse_file(f)
